@@ -4,7 +4,7 @@
     c12 <tree> <tol> <n> <spec>*n  P <i> <stored> | P - -   T <i> <text> | T - -   O <k> o*k
       tree : 0 | 1                         verify_tree
       tol  : z | n:p/q                     tolerance (z = None)
-      spec : I <val> | F ref j | F cat k j*k | F add a b | F sum k j*k | F cnt k j*k | F idx r row col
+      spec : I <val> | F ref j | F cat k j*k | F add a b | F sub a b | F eq a b | F sum k j*k | F cnt k j*k | F idx r row col
              | R <rows> <cols> j*(rows*cols)
              | X <exc|nimpl|unk> <val> k j*k   a formula pycel cannot evaluate (raises after its k precedents were
                                            evaluated); <val> = the result Excel stored for it
@@ -41,6 +41,8 @@ partial def parseNodes : Nat → List String → Option (List Node × List Strin
       | "I" :: v :: rest => do some ({ spec := .inp (← Val.dec? v) }, rest)
       | "F" :: "ref" :: j :: rest => do some ({ spec := .fml (.ref (← j.toNat?)) }, rest)
       | "F" :: "add" :: a :: b :: rest => do some ({ spec := .fml (.add (← a.toNat?) (← b.toNat?)) }, rest)
+      | "F" :: "sub" :: a :: b :: rest => do some ({ spec := .fml (.sub (← a.toNat?) (← b.toNat?)) }, rest)
+      | "F" :: "eq" :: a :: b :: rest => do some ({ spec := .fml (.eq (← a.toNat?) (← b.toNat?)) }, rest)
       | "F" :: "idx" :: r :: row :: col :: rest => do
           some ({ spec := .fml (.idx (← r.toNat?) (← row.toNat?) (← col.toNat?)) }, rest)
       | "F" :: "cat" :: k :: rest => do
